@@ -20,7 +20,7 @@ from ..core import (
     walk_no_nested,
 )
 from ..flow import Opaque, guards, inline, loops_around, reaching
-from ..resolve import CallGraph, method_def, resolve_callee
+from ..resolve import CallGraph, call_graph, method_def, resolve_callee
 from ..sym import Normaliser, Poly
 
 SOLVERS = {
@@ -40,7 +40,7 @@ def costkeys(prog: Program) -> RuleResult:
         "every unit cost the evaluator charges is read by the optimiser (an optimiser that never looks at "
         "c[K] minimises a different objective as soon as c[K] != 0)",
     )
-    graph = CallGraph(prog)
+    graph = call_graph(prog)
     out_cls = prog.cls(cm.MODEL, "ReconciliationOutput")
     cost_rec = method_def(out_cls, "_cost_rec")
     if cost_rec is None:
@@ -211,7 +211,13 @@ def _expected(sig: cm.EvalSignature, model: str, pk: Optional[str], ck_a: Option
 
 
 def composed_totals(prog: Program):
-    """For every recurrence: list of (rec, idx, comb, pk, site_a, site_b, kind, total poly, roles)."""
+    if "composed_totals" not in prog.memo:
+        prog.memo["composed_totals"] = _composed_totals(prog)
+    return prog.memo["composed_totals"]
+
+
+def _composed_totals(prog: Program):
+    """For every recurrence: list of (rec, idx, comb, cpoly, pk, class a, child a, class b, child b)."""
     out = []
     for rec in cm.find_recurrences(prog):
         for idx, comb in enumerate(rec.combines):
@@ -310,6 +316,12 @@ def event_sig(prog: Program) -> RuleResult:
 
 
 def _site_domain(rec: cm.Recurrence, site: cm.CandidateSite) -> Tuple[str, List[str]]:
+    if "domain" not in site.__dict__:
+        site.__dict__["domain"] = _site_domain_uncached(rec, site)
+    return site.__dict__["domain"]
+
+
+def _site_domain_uncached(rec: cm.Recurrence, site: cm.CandidateSite) -> Tuple[str, List[str]]:
     """Role of the species range a candidate site covers: below | below-c0 | below-c1 | separate | unknown."""
     if not site.s_keys:
         return "unknown", ["no sub-problem value read"]
@@ -900,7 +912,10 @@ def _check_consumer(res: RuleResult, mod: Module, fkey: str, fn: ast.AST, pfn: a
                 # is there a sentinel test of this name?
                 for node in walk_no_nested(fn):
                     if isinstance(node, (ast.If, ast.Assert, ast.IfExp, ast.While)):
-                        if _is_sentinel_test(node.test, name) is not None:
+                        test = node.test
+                        while isinstance(test, ast.UnaryOp) and isinstance(test.op, ast.Not):
+                            test = test.operand
+                        if _is_sentinel_test(test, name) is not None:
                             tested_name, tested_stmt = name, parent
         if tested_name is None:
             # maybe the raw call itself is compared: `if f(a, b, True) < 0`
